@@ -58,6 +58,10 @@ def tasks(tier):
     for t in c06.tasks(tier):
         if t["family"] == "policy-seq":
             out.append(dict(t, family="policy-seq"))
+    for thr, W, R in itertools.product([1, 2], [4], [2, 3]):
+        cfg = {"threshold": thr, "window": W, "recovery": R, "class_thresholds": {}, "trip_on": ["T"]}
+        out.append({"family": "raw", "cfg": cfg, "entry": "CircuitBreaker",
+                    "bound": 8 if tier == "quick" else 10, "weight": 4})
     return out
 
 
@@ -90,6 +94,9 @@ def run_task(task, seed):
     if fam == "identity":
         from .. import statebfs
         return statebfs.bfs_identity(task["cfg"], task["bound"], task["max_out"], seed)
+    if fam == "raw":
+        from .. import statebfs
+        return statebfs.bfs_raw(task["cfg"], task["bound"], ["T", "U"], seed)
     if fam == "async-interleave":
         from .. import coro
         return coro.bfs_async(task["cfg"], task["bound"], task["max_out"], task["kinds"], seed)
@@ -99,6 +106,8 @@ def run_task(task, seed):
 
 def replay(doc):
     fam = doc["family"]
+    if fam == "raw":
+        return c06.replay(doc)
     hist = tuple(tuple(e) for e in doc["choices"])
     if fam == "identity":
         from .. import statebfs
